@@ -200,7 +200,7 @@ def cases(ctx):
             yield dict(op="infer0 " + m, real=(I, [m]), expect=TCMAP.get(tc), tag="df17", trivial=tc not in TCMAP)
     # --- completeness
     for reg, g in GENS.items():
-        for _ in range(ctx.n(600, 20000)):
+        for _ in range(ctx.n(600, 5000)):
             bits = g(rng)
             if not any(bits):
                 continue
@@ -293,7 +293,7 @@ def cases(ctx):
             yield dict(op="infer0 " + m, real=(I, [m]), pred=["pred_contains" if ok else "pred_excludes", "BDS60"], tag="infer-sequence")
     # --- is50or60 on payloads that satisfy both rule sets (sparse random payloads do so often) and on one-sided ones
     n5060 = 0
-    for _ in range(ctx.n(6000, 200000)):
+    for _ in range(ctx.n(6000, 50000)):
         bits = gen50(rng) if rng.random() < 0.5 else gen60(rng)
         if rng.random() < 0.7:
             # blend: keep status-consistent fields of both layouts where possible
@@ -305,7 +305,7 @@ def cases(ctx):
         yield dict(op=None, real=("h:props.C12.p_is50or60", [m, rng.uniform(100, 550), rng.uniform(0, 360), rng.uniform(0, 42000)]),
                    expect="ok", tag="is50or60")
     # --- random payloads: infer consistent with the rules, mrar both
-    for _ in range(ctx.n(4000, 200000)):
+    for _ in range(ctx.n(4000, 50000)):
         bits = spec.background(rng, 56, "rand")
         if rng.random() < 0.7:
             # sparse payloads satisfy more rules
